@@ -1226,7 +1226,15 @@ def rule_struct_register_defaults(repo):
     return rule_init(repo)
 
 
-RULES = [rule_struct_register_defaults, rule_helper_writes_folded, rule_design_wide, rule_openloop_advance, rule_flip_codegen, rule_meta_block_codegen, rule_effects, rule_tick_order, rule_dbuf_set, rule_flip_cover, rule_init, rule_ffset, rule_ff_not_comb,
+def rule_late_registers_are_registers(repo):
+    """a register that arrives with add_component / replace_component after elaboration is clocked only if its update_ff
+    blocks reach the design-wide update_ff set on that path too: what _collect_vars adds is what the add path relies on, and
+    what _uncollect_vars removes -- decided by C15 (R-C15-inverse)"""
+    from rules.c15 import rule_inverse
+    return rule_inverse(repo)
+
+
+RULES = [rule_late_registers_are_registers, rule_struct_register_defaults, rule_helper_writes_folded, rule_design_wide, rule_openloop_advance, rule_flip_codegen, rule_meta_block_codegen, rule_effects, rule_tick_order, rule_dbuf_set, rule_flip_cover, rule_init, rule_ffset, rule_ff_not_comb,
          rule_next_in_range, rule_writes_detected, rule_meta_cache, rule_struct_registers, rule_struct_registers_grid, rule_struct_registers_wiring, rule_replace_marks_registers, rule_operator_table, rule_register_index]
 
 
